@@ -16,7 +16,7 @@ from harness.runner import Check
 use_repo()
 
 
-def make_items(chains):
+def make_items(chains, log=None):
     from graphtage.bounds import Range
 
     class Item:
@@ -34,6 +34,8 @@ def make_items(chains):
 
         def tighten_bounds(self):
             self.steps += 1
+            if log is not None:
+                log.append(self.idx)
             if self.p < len(self.chain) - 1:
                 self.p += 1
                 return True
@@ -111,8 +113,9 @@ def run_schedule(chains, with_search_history=False):
     except Exception as ex:
         o["finished"], o["exc"] = True, "%s: %s" % (type(ex).__name__, str(ex)[:100])
     ev.append(o)
-    items = make_items(chains)
-    o = {"alg": "distinct", "finished": False, "exc": "", "iv": [list(c[0]) for c in chains]}
+    calls = []
+    items = make_items(chains, calls)
+    o = {"alg": "distinct", "finished": False, "exc": "", "iv": [list(c[0]) for c in chains], "calls": calls}
     try:
         with deadline(2.0):
             gb.make_distinct(*items)
@@ -124,6 +127,25 @@ def run_schedule(chains, with_search_history=False):
         o["finished"], o["exc"] = True, "%s: %s" % (type(ex).__name__, str(ex)[:100])
     ev.append(o)
     return ev, hist
+
+
+def validate_distinct(recs, name="DistinctTrace"):
+    """Recordings [{chain, calls, final}] against the L2 model spec/DistinctTrace.tla.
+    Returns (set of accepted 0-based indices, TLC stats)."""
+    if not recs:
+        return set(), {"generated": 0, "distinct": 0, "runs": 0, "wall": 0.0}
+    import os as _os
+    from harness.common import scratch
+    path = _os.path.join(scratch(), "traces-%s.json" % name)
+    with open(path, "w") as f:
+        json.dump(recs, f)
+    cfg = tlc.cfg_text(spec="TraceSpec", constants={"NItems": 1, "V": 0}, invariants=["Report"])
+    res = tlc.run_tlc("DistinctTrace", cfg, workers=1, env={"TRACE_FILE": path}, timeout=1500, name=name)
+    if not res.completed:
+        raise MachineryError("trace validation with DistinctTrace did not complete:\n%s" % res.out[-2000:])
+    _os.unlink(path)
+    acc = {x["tid"] - 1 for x in res.printed if isinstance(x, dict) and x.get("v") == "ACCEPT"}
+    return acc, {"generated": res.generated, "distinct": res.distinct, "runs": 1, "wall": res.wall}
 
 
 def enc(v):
@@ -202,6 +224,14 @@ def run():
         if not res.completed:
             chk.drift.append("Search.tla (N=%d,V=%d) reports a counterexample on the model; lead only" % (n, v))
         chk.add_tlc(res, "Search", "L2 model of IterativeTighteningSearch, all schedules N=%d V=0..%d: Correct + Terminates" % (n, v))
+    for n, v in ([(3, 2)] if t == "quick" else [(3, 3), (4, 2)]):
+        cfg = ("SPECIFICATION Spec\nCONSTANTS NItems = %d V = %d\nINVARIANT Separated\nINVARIANT TreeFresh\nPROPERTY Terminates\n"
+               "CHECK_DEADLOCK FALSE\n" % (n, v))
+        res = tlc.run_tlc("Distinct", cfg, workers=16, timeout=1500, name="Distinct-mc")
+        if not res.completed:
+            chk.drift.append("Distinct.tla (N=%d,V=%d) reports a counterexample on the model; lead only" % (n, v))
+        chk.add_tlc(res, "Distinct", "L2 model of make_distinct, all schedules and all choices of biggest/second N=%d V=0..%d: "
+                    "Separated + TreeFresh + Terminates" % (n, v))
     schedules = []
     for n, v in domains:
         cfg = tlc.cfg_text(spec="GenSpec", constants={"NItems": n, "V": v}, invariants=["Emit"])
@@ -246,6 +276,26 @@ def run():
             sig = {"clause": v["clause"], "alg": e["alg"]}
             chk.violation(sig, {"chains": ch}, "schedule %s: %s breaks clause '%s' (outcome %s)" % (
                 json.dumps(ch), e["alg"], v["clause"], json.dumps(e)))
+    # L2 binding: the order in which the real make_distinct tightened its items must be a behaviour of Distinct.tla
+    drecs, didx = [], []
+    for i, ev in enumerate(results):
+        d = ev[-1]
+        if d["alg"] == "distinct" and d["finished"] and not d["exc"]:
+            drecs.append({"chain": schedules[i], "calls": d["calls"], "final": d["iv"]})
+            didx.append(i)
+    dparts = [list(range(len(drecs)))[k::shards] for k in range(shards)]
+    with ThreadPoolExecutor(max_workers=shards) as ex:
+        dres = list(ex.map(lambda k: validate_distinct([drecs[j] for j in dparts[k]], "DistT-%d" % k), range(shards)))
+    unexplained = 0
+    for k, (acc, st) in enumerate(dres):
+        chk.add_trace_stats(st, "DistinctTrace", len(dparts[k]))
+        for pos, j in enumerate(dparts[k]):
+            if pos not in acc:
+                unexplained += 1
+                if unexplained <= 3:
+                    chk.drift.append("make_distinct on %s tightened items in the order %s and ended on %s: not a behaviour of "
+                                     "Distinct.tla" % (json.dumps(drecs[j]["chain"]), drecs[j]["calls"], drecs[j]["final"]))
+    chk.extra["make_distinct_runs_explained_by_Distinct_tla"] = "%d of %d" % (len(drecs) - unexplained, len(drecs))
     chk.sample({"schedule": schedules[len(schedules) // 3], "outcomes": results[len(schedules) // 3]})
     chk.sample({"schedule": schedules[-1], "outcomes": results[-1]})
     chk.rule = ("cases = tightening schedules (item -> chain of strictly nested intervals ending in a point): all schedules "
